@@ -159,7 +159,7 @@ impl<'a> Cx<'a> {
             oracle::begin_execution(self.parity_odd);
         }
         self.execs += 1;
-        let r = oracle::subject(|| {
+        let r = oracle::subject(|| catch_unwind(AssertUnwindSafe(|| {
             let (mut t, _m) = build(spec);
             t.advance(k);
             let out = match catch_unwind(AssertUnwindSafe(|| f(&mut t))) {
@@ -177,7 +177,11 @@ impl<'a> Cx<'a> {
             drop(d);
             drop(t);
             (out, rest)
-        });
+        })));
+        let r = match r {
+            Ok(r) => r,
+            Err(_) => (Out::Panic, vec![0xBA, 0xD1]),
+        };
         if !self.tracked {
             return Ok(r);
         }
